@@ -18,6 +18,12 @@ var Rigs = map[string]sim.Rig{
 	"C19t": {Name: "tlshello", Run: runTLSHello},
 	"C13": {Name: "fcgi", Run: runFcgi("C13")},
 	"C19f": {Name: "fcgi", Run: runFcgi("C19")},
+	"C12": {Name: "site", Run: runSite("C12")},
+	"C18": {Name: "site", Run: runSite("C18")},
+	"C20": {Name: "site", Run: runSite("C20")},
+	"C17b": {Name: "site", Run: runSite("C17")},
+	"C17l": {Name: "listener", Run: runListenerLimits},
+	"C17": {Name: "limits", Run: runC17},
 	"C08": {Name: "loadfail", Run: runLoadfail, NoBubble: true},
 }
 
@@ -31,6 +37,17 @@ func runC19(c *sim.Ctl) {
 	i := c.T.Stream("sub").Draw(len(subs))
 	c.Params["surface"] = subs[i].name
 	subs[i].f(c)
+}
+
+// runC17: body limits (site rig) or shared listener settings (listener rig).
+func runC17(c *sim.Ctl) {
+	if c.T.Stream("sub").Draw(2) == 0 {
+		c.Params["part"] = "body-limits"
+		runSite("C17")(c)
+		return
+	}
+	c.Params["part"] = "shared-listener-settings"
+	runListenerLimits(c)
 }
 
 func TestWorker(t *testing.T) { sim.WorkerMain(t, Rigs) }
